@@ -86,7 +86,11 @@ def cap(ctx):
             p = t["callee"].get("path") or ""
             if "HashMap" in p and last_seg(p) in ("insert", "entry", "extend", "try_insert") and "ClientConnection" in (t["callee"].get("full") or ""):
                 ins.add(f.name)
-    ctx.ob("R10.1", "insert|only-in-accept-path", all(x.startswith(srv.HNC) for x in ins) and len(ins) == 1, "the connection map grows only in %s" % sorted(ins))
+    from .util import writer_roots
+    roots = set()
+    for x in ins:
+        roots |= writer_roots(facts, x)
+    ctx.ob("R10.1", "insert|only-in-accept-path", all(x.startswith(srv.HNC) for x in roots) and len(ins) == 1, "the connection map grows only in %s (on behalf of %s)" % (sorted(ins), sorted(roots)))
 
 
 def refusal(ctx):
